@@ -26,7 +26,7 @@ var colKinds = []colKind{
 	{id: "Str", ty: "pkg.Str", bkind: "BString", pk: "str", ref: "Str"},
 	{id: "uint_", ty: "int", bkind: "BUntypedInt", pk: "int", ref: "int", lo: -50, hi: 5000},
 	{id: "tint", ty: "int", bkind: "BInt", pk: "int", ref: "int", lo: -1 << 40, hi: 1 << 40},
-	{id: "int64", ty: "int64", bkind: "BInt64", pk: "int", ref: "int64", lo: -1 << 62, hi: 1 << 62},
+	{id: "int64", ty: "int64", bkind: "BInt64", pk: "int", ref: "int64", lo: -1 << 61, hi: 1 << 61},
 	{id: "uint64", ty: "uint64", bkind: "BUint64", pk: "int", ref: "uint64", lo: 0, hi: 1 << 62},
 	{id: "uint", ty: "uint", bkind: "BUint", pk: "int", ref: "uint", lo: 0, hi: 100000},
 	{id: "Num", ty: "pkg.Num", bkind: "BInt", pk: "int", ref: "Num", lo: -100, hi: 100000},
@@ -336,9 +336,24 @@ func dedupTypes(ts []TypeInfo) []TypeInfo {
 	return out
 }
 
-var kindsC05 = []string{"ustr", "tstr", "Str", "uint_", "tint", "int64", "uint64", "uint", "Num", "dur", "AuxA"}
-var kindsC12 = []string{"ustr", "tstr", "Str", "uint_", "tint", "int64", "uint64", "uint", "Num", "dur", "int8", "uint8",
-	"int32", "uint16", "urune", "trune", "ubool", "tbool", "AuxA", "AuxB"}
+// kinds are drawn per file: the common ones always, the expensive ones (renamed time import,
+// other generated enums: each makes every CLI run of the package several seconds slower) for
+// a fraction of the files
+var kindsC05 = []string{"ustr", "tstr", "Str", "uint_", "tint", "int64", "uint64", "uint", "Num"}
+var kindsC12 = []string{"ustr", "tstr", "Str", "uint_", "tint", "int64", "uint64", "uint", "Num", "int8", "uint8",
+	"int32", "uint16", "urune", "trune", "ubool", "tbool"}
+
+func fileKinds(r *rand.Rand, base []string, own []string) []string {
+	out := append([]string{}, base...)
+	if r.IntN(5) == 0 {
+		out = append(out, "dur", "dur")
+	}
+	if r.IntN(6) == 0 {
+		out = append(out, own...)
+		out = append(out, own...)
+	}
+	return out
+}
 
 // pickParsable draws a subset of the value-distinct columns; columns whose type id is shared
 // with another parsable column are left out when their values could collide.
@@ -373,6 +388,7 @@ func randomFileC05(r *rand.Rand) FileDef {
 	blk := 0
 	nt := 1 + r.IntN(2)
 	var parsable []string
+	kinds := fileKinds(r, kindsC05, []string{"AuxA"})
 	for i := 0; i < nt; i++ {
 		if r.IntN(3) == 0 {
 			// an enum without traits (C04 shape, fewer constants)
@@ -381,7 +397,7 @@ func randomFileC05(r *rand.Rand) FileDef {
 			continue
 		}
 		e, distinct := genTraitEnum(r, nm, fmt.Sprintf("E%d", i), &blk,
-			traitSpec{kinds: kindsC05, maxCols: 3, maxConsts: 8})
+			traitSpec{kinds: kinds, maxCols: 3, maxConsts: 8})
 		fd.Enums = append(fd.Enums, e)
 		parsable = append(parsable, pickParsable(r, distinct)...)
 	}
@@ -398,9 +414,10 @@ func randomFileC12(r *rand.Rand) FileDef {
 	blk := 0
 	nt := 1 + r.IntN(2)
 	var parsable []string
+	kinds := fileKinds(r, kindsC12, []string{"AuxA", "AuxB"})
 	for i := 0; i < nt; i++ {
 		e, distinct := genTraitEnum(r, nm, fmt.Sprintf("E%d", i), &blk,
-			traitSpec{kinds: kindsC12, maxCols: 5, maxConsts: 10, dupCells: 12, dupNoCells: 15, plainNoCells: 4, namedCells: 8})
+			traitSpec{kinds: kinds, maxCols: 5, maxConsts: 10, dupCells: 12, dupNoCells: 15, plainNoCells: 4, namedCells: 8})
 		fd.Enums = append(fd.Enums, e)
 		if r.IntN(5) > 0 {
 			parsable = append(parsable, pickParsable(r, distinct)...)
